@@ -142,7 +142,11 @@ Holds(W, t, a) ==
 (***************************************************************************)
 RECURSIVE SubElem(_, _, _)
 SubElem(banc, x, y) ==
-  IF y.k = "any" THEN SubElem(banc, x, [k |-> "cls", c |-> 1])
+  \* [k |-> "un", args]: a union written inside type[...] (type[A | C]) - below what all its members are below,
+  \* above what is below one of its members
+  IF x.k = "un" THEN \A j \in DOMAIN x.args : SubElem(banc, x.args[j], y)
+  ELSE IF y.k = "un" THEN \E j \in DOMAIN y.args : SubElem(banc, x, y.args[j])
+  ELSE IF y.k = "any" THEN SubElem(banc, x, [k |-> "cls", c |-> 1])
   ELSE IF x.k = "any" THEN SubElem(banc, [k |-> "cls", c |-> 1], y)
   \* [k |-> "metaof", cs] : a metaclass used as an annotation; the classes cs are its instances.  It is
   \* below object only, and a passed class satisfies it iff it is one of its instances
